@@ -26,7 +26,7 @@ ASSUMPTIONS = ['mpmath 50-digit evaluation of psi_inv(psi(u)+psi(v)) is exact to
 
 def cases(seed, tier):
     rng = rng_for(seed, 'C06')
-    n_rand = 6 if tier == 'quick' else 110
+    n_rand = 6 if tier == 'quick' else 2500
     out = []
     for fam in biv.FAMILIES:
         thetas = biv.theta_list(fam, n_rand, rng)
